@@ -17,6 +17,7 @@ import (
 type retInfo struct {
 	st   *state
 	vals []T
+	block *ssa.BasicBlock
 }
 
 type dbgRef struct {
@@ -85,11 +86,15 @@ func (fr *frame) obligeHere(kind, label string, st *state, goal, pos string) *Ob
 	if fr.inline {
 		return nil
 	}
-	if fr.fc != nil && fr.fc.FrameOnly && !strings.HasPrefix(kind, "frame.") {
+	if fr.fc != nil && fr.fc.FrameOnly && !strings.HasPrefix(kind, "frame.") && !strings.HasPrefix(kind, "mustuse") {
 		return nil
 	}
 	o := fr.vc.oblige(kind, label, fr.name, st.reach, goal, pos)
 	o.Values = fr.rootInputs()
+	if kind == "safe.makelen" {
+		// execution continues past a run-time check only when it passed (it panics otherwise)
+		fr.vc.assume(st.reach, goal)
+	}
 	return o
 }
 
@@ -676,6 +681,15 @@ func (fr *frame) val(v ssa.Value) T {
 	case *ssa.Builtin:
 		return T{"0", "Int", nil}
 	}
+	switch v.(type) {
+	case *ssa.IndexAddr, *ssa.FieldAddr:
+		// an interior pointer used as a value (passed on, stored): opaque
+		fr.abstract("interior pointer used as a value")
+		n := fr.vc.declareConst(fr.pfx+v.Name()+"_iptr", "Int")
+		t := T{n, "Int", v.Type()}
+		fr.vals[v] = t
+		return t
+	}
 	bail("value %s (%T) of %s not available", v.Name(), v, fr.fn)
 	return T{}
 }
@@ -1017,7 +1031,7 @@ func (fr *frame) doReturn(x *ssa.Return, st *state) {
 	for _, r := range x.Results {
 		vals = append(vals, fr.val(r))
 	}
-	fr.rets = append(fr.rets, retInfo{st, vals})
+	fr.rets = append(fr.rets, retInfo{st, vals, x.Block()})
 }
 
 func (fr *frame) doPanic(x *ssa.Panic, st *state) {
